@@ -7,6 +7,7 @@ require (
 	github.com/mmcloughlin/geohash v0.10.0
 	github.com/tidwall/geojson v1.4.6
 	github.com/tidwall/tile38 v0.0.0
+	github.com/yuin/gopher-lua v1.1.1
 	pgregory.net/rapid v1.3.0
 )
 
@@ -96,7 +97,6 @@ require (
 	github.com/xdg-go/pbkdf2 v1.0.0 // indirect
 	github.com/xdg-go/scram v1.1.2 // indirect
 	github.com/xdg-go/stringprep v1.0.4 // indirect
-	github.com/yuin/gopher-lua v1.1.1 // indirect
 	github.com/zeebo/xxh3 v1.0.2 // indirect
 	go.opencensus.io v0.24.0 // indirect
 	go.opentelemetry.io/auto/sdk v1.1.0 // indirect
